@@ -44,6 +44,7 @@ def mkMsg (st : Char) (loc id : String) : Option M :=
   | 'e' => some { value := some (withTerm ("E" ++ sfx)), attrs := [] }
   | 'z' => some { value := some (withVar ("Z" ++ sfx)), attrs := [("t", withVar "ZT"), ("u", withTerm "ZU")] }
   | 'y' => some { value := none, attrs := [("t", withVar ("YT" ++ sfx))] }
+  | 'r' => some { value := some (plain ("R" ++ sfx)), attrs := [("t", plain ("RT" ++ sfx)), ("u", withVar "RU"), ("t", withTerm "RV")] }
   | _ => none
 
 def lookupMsg : List (String × M) → String → Option M
